@@ -71,7 +71,10 @@ func (s *SessionStore) Load(req *http.Request) (*sessions.SessionState, error) {
 // Clear clears any saved session information by writing a cookie to
 // clear the session
 func (s *SessionStore) Clear(rw http.ResponseWriter, req *http.Request) error {
-	for _, name := range s.sessionCookieNames(req.Cookies()) {
+	// Clear the cookies presented by the request as well as any session
+	// cookies already set on this response (e.g. by a refresh earlier in the
+	// same request).
+	for _, name := range s.sessionCookieNames(append(req.Cookies(), responseCookies(rw)...)) {
 		http.SetCookie(rw, s.makeCookie(req, name, "", time.Hour*-1))
 	}
 
@@ -119,6 +122,11 @@ func (s *SessionStore) setSessionCookie(rw http.ResponseWriter, req *http.Reques
 		http.SetCookie(rw, c)
 	}
 	return nil
+}
+
+// responseCookies returns the cookies already set on the response.
+func responseCookies(rw http.ResponseWriter) []*http.Cookie {
+	return (&http.Response{Header: rw.Header()}).Cookies()
 }
 
 // sessionCookieNames returns the distinct names among the given cookies that
